@@ -6,7 +6,9 @@ advances around the retry delay, and server-list edits (add / remove / reorder /
 while attempts are in flight: ares_set_servers_ports_csv, or - a fifth of the histories - a
 rewritten resolv.conf followed by ares_reinit (sim op writefile).  serverstatecb=1 and
 qdump=1 so that the oracle sees the server-state callbacks and the library's own failure
-counters; idseq=1 so that probe copies can be told from user queries.
+counters; idseq=1 so that probe copies can be told from user queries.  UDP histories also start
+queries from inside completion callbacks (oncb <T> send,...) and run search / getaddrinfo
+requests whose next candidate is started from the internal completion callback (names h<T>.x).
 """
 
 
@@ -85,7 +87,8 @@ def gen_case(rng, tier):
     # Fast Open (tfo=1) and a `run` after every op make the library write a query at the moment it
     # chooses the server, so that the TX line shows the decision as on UDP
     transport = rng.choice(["udp", "udp", "udp", "tc", "usevc", "usevc"])
-    cfg = ["seed=%d" % rng.randrange(1, 10 ** 6)] + srv + ["flags=noedns" + (",usevc" if transport == "usevc" else "")] + (["tfo=1"] if transport != "udp" else []) + ["rotate=%d" % rng.choice([0, 0, 1, 1]),
+    rot = rng.choice([0, 0, 1, 1])
+    cfg = ["seed=%d" % rng.randrange(1, 10 ** 6)] + srv + ["flags=noedns" + (",usevc" if transport == "usevc" else "")] + (["tfo=1"] if transport != "udp" else []) + ["rotate=%d" % rot,
            "timeout=2000", "maxtimeout=5000", "qcachettl=0", "idseq=1", "serverstatecb=1", "qdump=1"]
     tries = rng.choice([None, 1, 1, 2, 3])
     if tries is not None:
@@ -112,11 +115,38 @@ def gen_case(rng, tier):
                 "rsp x1 rcode=%s" % k, "proc", "run", "rsp x0 tc=1", "proc", "run"]
         tok = 2
         pending = 2
+    # callback re-entrancy: a query started from inside a completion callback (sim op oncb), or the
+    # next candidate of a search / getaddrinfo request (started from the internal completion
+    # callback), is a fresh attempt made AFTER the success of the answering server was recorded
+    reentry = transport == "udp" and n >= 2 and rng.random() < 0.4
+    if reentry:
+        # queries 1 and 2 in flight; 2 fails (once without rotation: the first server is demoted;
+        # once on every server with rotation: all servers have one failure); then 1 is answered
+        # by the server it is still outstanding on - which is thereby restored to full priority -
+        # and its completion starts a new query: that one must go to the restored server
+        how = rng.choice(["oncb", "oncb", "search", "gai"])
+        k = rng.choice(["SERVFAIL", "REFUSED", "NOTIMP"])
+        if how == "oncb":
+            ops += ["oncb 1 send,101,q101.example,IN,A,rd", "send 1 q1.example IN A rd"]
+            good = "rsp x0 an=A:1.1.1.1"
+        else:
+            cfg += ["domains=a.test,b.test", "ndots=2"]
+            ops += ["search 1 h1.x IN A rd" if how == "search" else "gai 1 h1.x 4 0"]
+            good = rng.choice(["rsp x0 rcode=NXDOMAIN", "rsp x0 rcode=NXDOMAIN", "rsp x0 aa=1"])
+        ops += ["send 2 q2.example IN A rd", "run"]
+        for _ in range(n if rot else 1):
+            ops += ["rsp xl rcode=%s" % k, "proc", "run"]
+        ops += [good, "proc", "run"]
+        tok = 2
+        pending = 2
     for _ in range(nev):
         r = rng.random()
         if pending == 0:
             if r < 0.6:
                 tok += 1
+                if transport == "udp" and rng.random() < 0.2:
+                    # its completion callback starts another query
+                    ops.append("oncb %d send,%d,q%d.example,IN,A,rd" % (tok, 100 + tok, 100 + tok))
                 ops.append("send %d q%d.example IN A rd" % (tok, tok))
                 pending = 1 + (1 if rng.random() < 0.3 else 0)
                 if rng.random() < 0.15:
